@@ -119,6 +119,18 @@ def NS.checkSession (st : NS) (peer : String) (connId : Nat) : Reply :=
     else if peer < st.thisName then .thisContinues
     else .otherContinues
 
+/-- mark `id` as a member of `authenticated_sessions` -/
+def NS.markAuth (st : NS) (id : Nat) : NS :=
+  { st with sessions := st.sessions.map (fun x => if x.id == id then { x with auth := true } else x) }
+
+/-- authenticated sessions of `peer` that were not elected -/
+def NS.losersOf (st : NS) (peer : String) (elected : List Nat) : List Nat :=
+  (st.sessions.filter (fun x => x.auth && x.peerName == some peer && !elected.contains x.id)).map (·.id)
+
+/-- remove the losers from `authenticated_sessions` -/
+def NS.deauth (st : NS) (losers : List Nat) : NS :=
+  { st with sessions := st.sessions.map (fun x => if losers.contains x.id then { x with auth := false } else x) }
+
 /-- `commit_authenticated`: returns the new state, whether the candidate survives and the
 loser ids (whose `authenticated` flag is cleared). `none` when the session or its name is unknown. -/
 def NS.commit (st : NS) (id : Nat) : Option (NS × Bool × List Nat) :=
@@ -128,11 +140,10 @@ def NS.commit (st : NS) (id : Nat) : Option (NS × Bool × List Nat) :=
     match s.peerName with
     | none => none
     | some peer =>
-      let st1 : NS := { st with sessions := st.sessions.map (fun x => if x.id == id then { x with auth := true } else x) }
+      let st1 := st.markAuth id
       let elected := elect (nameOrd peer st.thisName) (st1.candidatesFor peer true)
-      let losers := (st1.sessions.filter (fun x => x.auth && x.peerName == some peer && !elected.contains x.id)).map (·.id)
-      let st2 : NS := { st1 with sessions := st1.sessions.map (fun x => if losers.contains x.id then { x with auth := false } else x) }
-      some (st2, elected.contains id, losers)
+      let losers := st1.losersOf peer elected
+      some (st1.deauth losers, elected.contains id, losers)
 
 /-- `is_elected` -/
 def NS.isElected (st : NS) (id : Nat) : Bool :=
@@ -177,5 +188,25 @@ def worldOk (cs : List Conn) (eA eB : List Nat) : Bool :=
   | c :: _ =>
     if c.aInit then (kB.length == 1 && kB.all (fun x => kA.contains x))
     else (kA.length == 1 && kA.all (fun x => kB.contains x))
+
+/-- End-to-end outcome oracle (exactly what C18 states about outcomes): `kept*` are the
+connection indices each node still lists at quiescence, `ready*` the connections reported
+ready that are still alive. Both nodes keep the same single connection and it is the only
+live ready one. -/
+def e2eOk (n : Nat) (keptA keptB readyA readyB : List Nat) : Bool :=
+  match keptA, keptB with
+  | [i], [j] => i == j && decide (i < n) && readyA == [i] && readyB == [j]
+  | _, _ => false
+
+/-- What the MODEL additionally predicts about the outcome (correspondence, not property):
+when both directions were dialled the survivor is a dial of the node whose name sorts last
+(`dirs[i] = true` iff node A dialled connection `i`, `o = compare nameB nameA`). -/
+def e2eDirectionAsModel (o : Ordering) (dirs : List Bool) (keptA : List Nat) : Bool :=
+  if dirs.any (· == true) && dirs.any (· == false) then
+    match keptA, o with
+    | [i], .lt => dirs[i]? == some true
+    | [i], .gt => dirs[i]? == some false
+    | _, _ => true
+  else true
 
 end Election
